@@ -99,13 +99,40 @@ def npscript(x: FLOAT[2]) -> FLOAT[2]:
     return NPBODY
 '''
 
+# the same identifier is a tensor parameter in the target and a script-time constant (attribute parameter / literal local / module global)
+# in the script translated just before it: what the converter remembers about NAMES must not outlive a translation
+TWIN_TARGET = '''
+@script()
+def twin_target(x: FLOAT[None], NAME: FLOAT[None]) -> FLOAT[None]:
+    y = op.Mul(x, NAME)
+    return BODY
+'''
+TWIN_HISTORY = {
+    "attribute": '''
+@script()
+def twin_history(x: FLOAT[None], NAME: float) -> FLOAT[None]:
+    return op.Mul(x, NAME)
+''',
+    "literal_local": '''
+@script()
+def twin_history(x: FLOAT[None]) -> FLOAT[None]:
+    NAME = 2.0
+    return op.Mul(x, NAME)
+''',
+    "bool_attribute": '''
+@script()
+def twin_history(x: FLOAT[None], NAME: bool) -> FLOAT[None]:
+    return op.Where(NAME, x, op.Neg(x))
+'''}
+TWIN_NAMES = ["alpha", "scale", "n", "k", "flag", "w"]
+
 CUSTOM_DOMAINS = ["com.microsoft", "aa.custom", "zz.custom", "ai.onnx.contrib", "org.pytorch.aten", "m"]
 
 
 @st.composite
 def targets(draw, focus=None):
     kinds = ["script", "script", "script_repeat", "script_nearmiss", "optimize", "optimize", "optimize_ir", "rewrite", "fold", "convert", "mutate_globals", "script_chain",
-             "mutate_np_global", "rewrite_custom"]
+             "mutate_np_global", "rewrite_custom", "script_twin", "fold_obj"]
     if focus is not None:
         kinds = ["optimize", "optimize_ir", "rewrite", "rewrite"]
     kind = draw(st.sampled_from(kinds))
@@ -117,6 +144,13 @@ def targets(draw, focus=None):
         return {"kind": "script_mutate_globals", "source": NP_GLOBAL_SCRIPT.replace("NPBODY", body), "name": "npscript", "opset": 18, "eager_input": [1.0, -2.0],
                 "globals_np": {"WARR": [[draw(st.sampled_from([0.5, 2.0])), 3.0], "float32"], "VARR": [[-1.0, 4.0], "float32"]},
                 "mutate_inplace": {"WARR": [draw(st.sampled_from([0, 1])), 100.0], "VARR": [0, -50.0]}, "fails": False, "np_global": True}
+    if kind == "script_twin":
+        nm = draw(st.sampled_from(TWIN_NAMES))
+        how = draw(st.sampled_from(sorted(TWIN_HISTORY)))
+        body = draw(st.sampled_from(["op.Add(y, NAME)", "y + NAME", "op.Where(y > NAME, y, NAME)", "op.Sub(NAME, y)"]))
+        twin = {"kind": "script", "source": TWIN_HISTORY[how].replace("NAME", nm), "name": "twin_history", "opset": 18, "fails": False}
+        return {"kind": "script", "source": TWIN_TARGET.replace("BODY", body).replace("NAME", nm), "name": "twin_target", "opset": 18, "fails": False,
+                "pre_history": [twin], "twin": how}
     if kind == "rewrite_custom":
         k = draw(st.integers(2, 4))
         doms = draw(st.lists(st.sampled_from(CUSTOM_DOMAINS), min_size=k, max_size=k, unique=True))
@@ -148,6 +182,9 @@ def targets(draw, focus=None):
         op["focus"] = getattr(focus, "__name__", "planter")
     if kind == "convert":
         op["target"] = draw(st.sampled_from([20, 21, 22, 23]))
+    if kind == "fold_obj":
+        op["si"] = draw(st.booleans())
+        op["pre_history"] = [{"kind": "bad_fold", "si": op["si"]}]
     if kind == "fold":
         op["si"] = draw(st.booleans())
     return op
@@ -187,6 +224,7 @@ def run_shard(spec):
                 for other in [(4, 11, 13, 14), (14, 12, 17, 4), (6, 21, 4, 14)][(perm_seed + i) % 3]:  # (below 5/6/7/15 several operators have no reference kernel)
                     ops_b.append(dict(tg[i], reopset=other))
                 reopset.add(i)
+            ops_b += tg[i].get("pre_history", [])  # history that the target itself asks for (by construction, not by chance)
             pos[i] = len(ops_b)
             ops_b.append(tg[i])
         rb = run_worker(ops_b, hs_b)
@@ -203,6 +241,10 @@ def run_shard(spec):
                 classes.append("failing_target")
             if t.get("chain"):
                 classes.append("target:script_chain(model imports != function imports)")
+            if t.get("twin"):
+                classes.append("target:script_after_twin(same name was a script-time constant):" + t["twin"])
+            if t["kind"] == "fold_obj":
+                classes.append("target:shared_FoldConstantsPass_object_after_a_run_that_raised")
             if t.get("np_global"):
                 classes.append("target:numpy_global_mutated_in_place")
             if t["kind"] == "rewrite_custom":
